@@ -12,6 +12,7 @@ import time
 
 HERE = os.path.dirname(os.path.abspath(__file__))
 VERIF = os.path.dirname(HERE)
+OUTDIR = os.environ.get('VERIF_OUT', VERIF)
 sys.path.insert(0, HERE)
 import cbuild  # noqa: E402
 
@@ -88,7 +89,7 @@ def native_run(binary, model, scratch, timeout=30):
     reach = re.findall(r'^REACH (.*)$', out, re.M)
     fails = re.findall(r'^ASSERT-FAIL (.*)$', out, re.M)
     san = None
-    m = re.search(r'(ERROR: AddressSanitizer[^\n]*|runtime error:[^\n]*|Assertion[^\n]*failed[^\n]*)', errt)
+    m = re.search(r'(ERROR: AddressSanitizer[^\n]*|WARNING: MemorySanitizer[^\n]*|runtime error:[^\n]*|Assertion[^\n]*failed[^\n]*)', errt)
     if m:
         san = m.group(1)
     elif rc not in (0, 77) and 'EXIT' not in out:
@@ -108,7 +109,8 @@ class Check:
         self.known = []
         self.errors = []
         self.kf = load_known(pid)
-        self.replay_dir = os.path.join(VERIF, 'replays', pid)
+        self._libm = None
+        self.replay_dir = os.path.join(OUTDIR, 'replays', pid)
 
     def cleanup(self):
         shutil.rmtree(self.scratch, ignore_errors=True)
@@ -264,6 +266,15 @@ class Check:
             reproduced = nr['san'] is not None
             if not reproduced and job.get('trust_mem'):
                 reproduced = True
+        if f['kind'] == 'uninit' and not reproduced:
+            # reads of never-written memory inside an allocation are invisible to ASan: replay under MSan
+            if self._libm is None:
+                self._libm = cbuild.build_lib_native(self.scratch, msan=True)
+            if '_msanbin' not in job:
+                job['_msanbin'] = cbuild.link_harness_msan(self.scratch, self._libm, os.path.join(VERIF, 'harness', job['harness']),
+                                                           job['defines'], job['entry'], job['tag'])
+            nr = native_run(job['_msanbin'], f['model'], self.scratch)
+            reproduced = nr['san'] is not None and 'MemorySanitizer' in nr['san']
         desc = dict(job=job['name'], harness=job['harness'], defines=job['defines'], kind=f['kind'], msg=f['msg'],
                     where=f['where'], model=f['model'], native=dict(fails=nr['fails'], san=nr['san'], reach=nr['reach']))
         if not reproduced:
@@ -283,7 +294,7 @@ class Check:
 
     # ---- finish --------------------------------------------------------------
     def finish(self, level, coverage_extra, assumptions, seed=0):
-        os.makedirs(os.path.join(VERIF, 'evidence'), exist_ok=True)
+        os.makedirs(os.path.join(OUTDIR, 'evidence'), exist_ok=True)
         seen = set()
         for k, desc in self.known:
             if k['id'] not in seen:
@@ -305,7 +316,7 @@ class Check:
         ev = dict(property_id=self.pid, tier=self.tier, seed=seed, level=level, coverage=cov,
                   assumptions=assumptions, wall_s=round(time.time() - self.t0, 2), violations=len(self.violations),
                   known_findings=sorted(seen), harness_errors=self.errors[:30])
-        with open(os.path.join(VERIF, 'evidence', self.pid + '.json'), 'w') as fh:
+        with open(os.path.join(OUTDIR, 'evidence', self.pid + '.json'), 'w') as fh:
             json.dump(ev, fh, indent=1, default=str)
         self.cleanup()
         if self.violations:
